@@ -59,6 +59,11 @@ theorem new_recv_event_wakes_reader (op : Op) (s : Streams) (hb : KeysBounded s.
     · exact absurd h hnew
     · exact h
 
+/-- non-vacuity: a response head arriving on the parked stream of `exOpen` grows the queue and wakes `p0` -/
+example : (exOpen.stream 0).pendingRecv.length = 0 ∧
+    (((Op.recvHeaders { sid := 1, eos := false, status := some [50, 48, 48] }).apply exOpen).stream 0).pendingRecv.length = 1 ∧
+    ((Op.recvHeaders { sid := 1, eos := false, status := some [50, 48, 48] }).apply exOpen).wakes = ["p0"] := by decide
+
 /-- (C) spelled out, send side: if `send_capacity_inc` of a stream is raised by an operation (capacity was
     assigned: WINDOW_UPDATE, SETTINGS, capacity given back by another stream, DATA written), the wakers in
     `send_task` (`poll_capacity`) and `open_task` were woken; and no operation ever clears the flag
@@ -77,6 +82,10 @@ theorem capacity_increase_wakes_sender (op : Op) (s : Streams) (hb : KeysBounded
     · rw [h1, h2] at h; cases h
     · exact h
 
+/-- non-vacuity: `reserve_capacity(65535)` on an open stream assigns capacity and raises its flag -/
+example : (Op.refReserveCapacity 0 65535).apply R1.r3 = R1.r4 ∧ (R1.r3.stream 0).sendCapacityInc = false ∧
+    (R1.r4.stream 0).sendCapacityInc = true := ⟨rfl, by decide, by decide⟩
+
 /-- **(A) `poll_capacity`**: `Pending` ⇒ the caller is parked in `send_task`, the stream is send-streaming,
     no capacity was assigned since the last poll or the capacity is zero, and the flag is clear (so
     the next increase wakes). -/
@@ -87,11 +96,15 @@ theorem poll_capacity_pending_is_registered (s s' : Streams) (k : Nat) (tag : St
     (s'.stream k).sendCapacityInc = false ∧ s'.wakes = s.wakes :=
   pollCapacity_pending ha h
 
+example : (match (exOpen.pollCapacity 0 "s0").2 with | .pending => true | _ => false) = true := by decide
+
 /-- **(A) `poll_reset`**: `Pending` ⇒ parked in `send_task`, and the stream has no reset reason yet. -/
 theorem poll_reset_pending_is_registered (s s' : Streams) (k : Nat) (mode : PollReset) (tag : String) (a : Stream)
     (ha : s.store.get? k = some a) (h : s.pollReset k mode tag = (s', .ok none)) :
     (s'.stream k).sendTask = some tag ∧ a.state.ensureReason mode = .ok none ∧ s'.wakes = s.wakes :=
   pollReset_pending ha h
+
+example : (W1.w3.pollReset 0 .streaming "s0").2 = .ok none := W1.parked.1
 
 /-- **(A) `poll_data` / `poll_trailers` / `poll_response`**: `Pending` ⇒ parked in `recv_task`; the queue is
     empty and the receive side still open (for `poll_trailers`: or unread DATA is in front). -/
@@ -108,6 +121,9 @@ theorem recv_polls_pending_are_registered (s s' : Streams) (k : Nat) (tag : Stri
       (s'.stream k).pendingRecv = [] ∧ s'.wakes = s.wakes) :=
   ⟨refPollData_pending ha, recvPollTrailers_pending ha, recvPollResponse_pending _ ha (Nat.lt_succ_self _)⟩
 
+example : (match (exOpen.refPollData 0 "b0").2 with | .pending => true | _ => false) = true ∧
+    (match (Streams.recvPollResponse 1 exOpen 0 "p0").2 with | .pending => true | _ => false) = true := by decide
+
 /-- **(A) `SendRequest::poll_ready`**: `Pending` ⇒ its pending stream still waits in `pending_open`, no
     connection error, and the caller is parked in that stream's `open_task` (the slot of its own since
     fix F10), which `notify_send` wakes when `pop_pending_open` opens the stream. -/
@@ -117,6 +133,9 @@ theorem poll_ready_pending_is_registered (s s' : Streams) (p : Option Nat) (tag 
       (∀ a, s.store.get? k = some a → (s'.stream k).openTask = some tag) ∧ s'.wakes = s.wakes :=
   pollPendingOpen_pending h
 
+/-- non-vacuity: right after `send_request` the stream waits in `pending_open` -/
+example : (W1.w1.pollPendingOpen (some 0) "q").2 = .ok false := by decide
+
 /-- **(D) the connection task is woken when a handle gives it work** — `TaskWoken s s'`: the slot
     `Actions.task` is empty in `s'` and the tag parked in `s` is in the wake log written in between.
     `queue_frame` / `schedule_send` on a stream that may send (not waiting in `pending_open`, not an
@@ -124,6 +143,8 @@ theorem poll_ready_pending_is_registered (s s' : Streams) (p : Option Nat) (tag 
 theorem queued_frame_wakes_connection (s : Streams) (k : Nat) (f : SFrame) (h : (s.stream k).isSendReady = true) :
     TaskWoken s (s.queueFrame k f) ∧ TaskWoken s (s.scheduleSend k) :=
   ⟨queueFrame_woken f h, scheduleSend_woken h⟩
+
+example : (exOpen.stream 0).isSendReady = true := by decide
 
 /-- (D) a successful `send_request` (the new stream goes to `pending_open` — explicit wake — or is
     scheduled), for every request in every state with bounded keys (every reachable state) -/
@@ -143,6 +164,8 @@ theorem send_headers_and_trailers_wake_connection (s : Streams) (k : Nat) (eos :
     ((s.sendHeaders k eos f).2 = .ok () → TaskWoken s (s.sendHeaders k eos f).1) ∧
     ((s.sendTrailers k f).2 = .ok () → TaskWoken s (s.sendTrailers k f).1) :=
   ⟨fun h => sendHeaders_woken h hr, fun h => sendTrailers_woken h hr⟩
+
+example : (exOpen.sendTrailers 0 []).2 = .ok () := by decide
 
 /-- (D) `send_reset` from a handle that has something to tell the peer (the stream was not reset before
     and is not both closed and flushed) -/
@@ -202,6 +225,8 @@ theorem release_capacity_wakes_connection (s : Streams) (k c : Nat) :
     (s.refs = 2 → TaskWoken s s.dropHandle) :=
   ⟨releaseConnectionCapacity_woken, refReleaseCapacity_woken, dropHandle_woken⟩
 
+example : (Conn.init {}).streams.refs = 2 := by decide
+
 /-- **(D) the connection task is parked whenever `Connection::poll` answers `Pending`.**  For every
     connection state, fuel and input: the polling task `c'.cx` is registered in `Actions.task` — the slot
     every handle operation above wakes — or, when the codec cannot take more, on the transport's write
@@ -243,6 +268,8 @@ theorem user_ping_wakes (c : Conn) (u : UserPings) (hu : c.pingPong.userPings = 
   rcases userPollPong_pending c c' tag h with hn | h
   · rw [hu] at hn; cases hn
   · exact h
+
+example : ((Conn.init {}).takeUserPings.1).pingPong.userPings = some {} := by decide
 
 end H2V.Props.C06
 
